@@ -200,6 +200,41 @@ def check(prog, rep, tier):
         rep.bad('R18.c', 'rest-view', file=f.file, line=f.node.lineno, func=f.qualname,
                 found='the statistic view does not return fsm.protocol.msg_sent_stat / msg_recv_stat',
                 key='rest-view')
+    # the statistic route itself: reachable in every state (no establishment gate), so the counters of a
+    # session that never came up (OPEN sent, NOTIFICATION sent) can be read
+    from .c16 import routes
+    sr = [(f_, rule, decs) for f_, rule, decs in routes(prog) if rule.endswith('/statistic')]
+    if not sr:
+        rep.bad('R18.c', 'rest-route', file='yabgp/api/v1.py', found='no /statistic route', key='rest-route')
+    for f_, rule, decs in sr:
+        extra = [d for d in decs[1:] if d not in ('auth.login_required', 'api_utils.log_request')]
+        if extra:
+            rep.bad('R18.c', 'rest-route', file=f_.file, line=f_.node.lineno, func=f_.qualname,
+                    found='the statistic route is wrapped in %s: it does not answer with the counters unless that '
+                          'decorator lets the request through (e.g. only while Established)' % extra,
+                    expected='the counters in every state', key='rest-route')
+        else:
+            rep.ok('R18.c', 'rest-route', file=f_.file, line=f_.node.lineno, found=decs)
+    # request-driven sends count after the write: if building the message fails (a field out of range), nothing was
+    # sent and nothing may have been counted
+    for meth in ('send_update', 'send_bin_update', 'send_route_refresh'):
+        f_ = bgp.find_method(meth)
+        incs = [n for n in ast.walk(f_.node) if isinstance(n, ast.AugAssign) and 'msg_sent_stat' in src_of(n.target)]
+        wrs = [n for n in ast.walk(f_.node) if isinstance(n, ast.Call) and (
+            src_of(n.func).endswith('transport.write') or
+            (src_of(n.func).endswith('callFromThread') and n.args and 'write' in src_of(n.args[0])))]
+        key = 'count-after-write:%s' % meth
+        if not incs or not wrs:
+            rep.undecided('R18.a', key, file=f_.file, line=f_.node.lineno,
+                          found='%d increments, %d writes found' % (len(incs), len(wrs)))
+        elif any(i.lineno < min(w_.lineno for w_ in wrs) for i in incs):
+            i = min(incs, key=lambda n: n.lineno)
+            rep.bad('R18.a', key, file=f_.file, line=i.lineno, func=f_.qualname,
+                    found='%s precedes the construction / write of the message: when a requested field does not fit '
+                          '(struct.error) nothing is written but the message is counted' % src_of(i),
+                    expected='count after transport.write', key=key)
+        else:
+            rep.ok('R18.a', key, file=f_.file, line=incs[0].lineno)
 
 
 def is_first_unpack_short(r, cls):
